@@ -7,6 +7,7 @@ use crate::rng::Rng;
 use crate::runner::{catch, grammar, mutate, Caught, Ctx};
 use ssz::{Decode, DecodeError, Encode, SszDecoderBuilder, SszEncoder, TryFromIter};
 use std::cell::Cell;
+use std::io::Write;
 
 pub fn consts(ctx: &mut Ctx) {
     ctx.line(&format!(
@@ -372,7 +373,7 @@ fn gen_listvar_bytes(r: &mut Rng) -> Vec<u8> {
             // first word announces many items
             let len = 4 + 4 * r.below(8);
             let mut b = r.bytes(len);
-            let w = *r.pick(&[len as u32, (len as u32) + 4, 1 << 16, 1 << 24, 0xffff_fffc, 8, 12]);
+            let w = *r.pick(&[len as u32, (len as u32) + 4, 1 << 16, 1 << 20, 1 << 24, 0xffff_fffc, 8, 12, (len as u32) + 8, 4 * (len as u32)]);
             b[0..4].copy_from_slice(&w.to_le_bytes());
             b
         }
@@ -414,8 +415,23 @@ pub fn listvars(ctx: &mut Ctx, count: usize) {
                 limits.push(Some(m));
             }
         }
+        // limits are caller-supplied numbers too: "unbounded" spelled as a huge limit, and limits
+        // whose size in bytes does not fit a usize
+        if ci % 3 == 0 {
+            let big = [1usize << 20, 1 << 30, 1 << 32, usize::MAX / 4, usize::MAX / 4 + 1, 1 << 62, 1 << 63, usize::MAX - 1, usize::MAX];
+            limits.push(Some(*ctx.rng.pick(&big)));
+            limits.push(Some(*ctx.rng.pick(&big)));
+        }
         let (unlim, _, _) = listvar_run(kind, &bytes, None);
         for max in limits {
+            // announce the case before running it: an abort is attributed to the last line
+            ctx.line(&format!(
+                "#pre\tlistvar\t{}\t{}\t{}",
+                kind,
+                max.map(|m| m.to_string()).unwrap_or_else(|| "none".into()),
+                hex(&bytes)
+            ));
+            let _ = ctx.out.flush();
             let (res, calls, largest) = listvar_run(kind, &bytes, max);
             let maxs = max.map(|m| m.to_string()).unwrap_or_else(|| "none".into());
             ctx.line(&format!(
